@@ -401,7 +401,7 @@ def qd_readback_is_leading_component(c):
 
 @pred
 def qd_component_marginally_over_half_ulp(c):
-    """qd result accurate, but a component exceeds half an ulp of its predecessor by less than 2^-20 of it"""
+    """qd result accurate, but a component exceeds half an ulp of its predecessor by less than 2^-10 of it"""
     from fractions import Fraction
     def d(x):
         return Fraction(struct.unpack('<d', struct.pack('<Q', x))[0])
@@ -413,7 +413,11 @@ def qd_component_marginally_over_half_ulp(c):
     exact = {'add': x + y, 'sub': x - y, 'mul': x * y}.get(c['opname'])
     if exact is None and c['opname'] == 'div' and y != 0:
         exact = x / y
-    if exact is None or abs(sum(r) - exact) * (1 << 212) > 16 * abs(exact):
+    if c['opname'] == 'sqrt':
+        # accurate root: |(sum r)^2 - x| <= 2^-205 x
+        if x <= 0 or abs(sum(r) ** 2 - x) * (1 << 205) > abs(x):
+            return False
+    elif exact is None or abs(sum(r) - exact) * (1 << 212) > 16 * abs(exact):
         return False
     over = False
     for p, q in zip(r, r[1:]):
@@ -423,7 +427,7 @@ def qd_component_marginally_over_half_ulp(c):
             continue
         ulp = Fraction(2) ** (math.frexp(float(abs(p)))[1] - 1 - 52)
         if abs(q) * 2 > ulp:
-            if abs(q) * 2 > ulp * (1 + Fraction(1, 1 << 20)):
+            if abs(q) * 2 > ulp * (1 + Fraction(1, 1 << 10)):
                 return False
             over = True
     return over
